@@ -25,9 +25,10 @@ IMPORTS = {
         ('C04', ['C04.f', 'C04.g'],
          'the transaction list is addressed by live positions only: a stale position clears another transaction\'s slot and leaves the destroyed '
          'one in the list - use after free at teardown (c01-9)'),
-        ('C18', ['C18.b', 'C18.c', 'C18.d', 'C18.e', 'C18.f'],
+        ('C18', ['C18.b', 'C18.c', 'C18.d', 'C18.e', 'C18.f', 'C18.h'],
          'a dangling owner field, a destroyed shallow copy, a half-moved container or a capacity recorded before the reallocation are double frees '
-         '/ overflows whichever event (odd input, failed allocation) leads to the exit path (c01-3)'),
+         '/ overflows whichever event (odd input, failed allocation) leads to the exit path; a record left in its table with a NULL value is a NULL '
+         'dereference in every consumer (c01-3, c01-13)'),
         ('C19', ['C19.e', 'C19.g'],
          'a copied configuration owns its hooks and its callback records: a copy that shares them with its source is a double free when both are '
          'destroyed (c01-14)'),
